@@ -179,8 +179,13 @@ class State:
         return n
 
     def assume(self, *facts):
-        for f in facts:
+        todo = list(facts)
+        while todo:
+            f = todo.pop(0)
             if z3.is_true(f):
+                continue
+            if z3.is_and(f):
+                todo = list(f.children()) + todo      # keep quantifier-free conjuncts usable for path pruning
                 continue
             self.pc.append(f)
 
